@@ -1,5 +1,5 @@
 """Plan corpus for the RE-lab harnesses: name -> factory(lab) -> (plan, devices)."""
-from vlib.relab import Det, Flyer, Motor, Signal
+from vlib.relab import AsyncStopMotor, Det, Flyer, Motor, Signal
 
 
 def _std(lab):
@@ -194,5 +194,94 @@ def flymon(lab):
     return plan(), d
 
 
-CORPUS = dict(count2=count2, scan2=scan2, scan3=scan3, rel_scan2=rel_scan2, list_scan2=list_scan2, grid2x2=grid2x2, adaptive=adaptive, tune=tune,
+def declared(lab):
+    """A pre-declared stream (declare_stream) followed by bundles; no checkpoint right after the declaration."""
+    from bluesky.utils import Msg
+
+    d = _std(lab)
+    m, det = d["m1"], d["det"]
+
+    def plan():
+        yield Msg("open_run")
+        yield Msg("checkpoint")
+        yield Msg("declare_stream", None, m, det, name="primary")
+        yield Msg("null", None, "after-declare")
+        for i in range(2):
+            yield Msg("checkpoint")
+            yield Msg("set", m, float(i + 1), group="g")
+            yield Msg("wait", None, group="g")
+            yield Msg("create", name="primary")
+            yield Msg("read", m)
+            yield Msg("read", det)
+            yield Msg("save")
+        yield Msg("close_run")
+
+    return plan(), d
+
+
+def double_stage(lab):
+    """Stages a device, later tries to stage it again tolerating a failure, and leaves unstaging to the engine."""
+    from bluesky.utils import Msg
+
+    d = _std(lab)
+    det, m = d["det"], d["m1"]
+
+    def plan():
+        yield Msg("stage", det)
+        yield Msg("open_run")
+        yield Msg("checkpoint")
+        try:
+            yield Msg("stage", det)
+        except Exception:  # noqa
+            yield Msg("null", None, "tolerated")
+        yield Msg("set", m, 1.0, group="g")
+        yield Msg("wait", None, group="g")
+        yield Msg("close_run")
+
+    return plan(), d
+
+
+def failpause(lab):
+    """A planned pause inside a non-resumable section, after moving a motor whose stop() is a real coroutine."""
+    from bluesky.utils import Msg
+
+    d = _std(lab)
+    d["am"] = am = AsyncStopMotor("am", lab)
+
+    def plan():
+        yield Msg("open_run")
+        yield Msg("checkpoint")
+        yield Msg("set", am, 1.0, group="g")
+        yield Msg("wait", None, group="g")
+        yield Msg("clear_checkpoint")
+        yield Msg("null", None, "x")
+        yield Msg("pause")
+        yield Msg("null", None, "never")
+        yield Msg("close_run")
+
+    return plan(), d
+
+
+def defer_failpause(lab):
+    """A deferred planned pause that fires at a checkpoint of a plan made non-resumable earlier."""
+    from bluesky.utils import Msg
+
+    d = _std(lab)
+    d["am"] = am = AsyncStopMotor("am", lab)
+
+    def plan():
+        yield Msg("open_run")
+        yield Msg("set", am, 1.0, group="g")
+        yield Msg("wait", None, group="g")
+        yield Msg("clear_checkpoint")
+        yield Msg("pause", defer=True)
+        yield Msg("null", None, "x")
+        yield Msg("checkpoint")
+        yield Msg("null", None, "y")
+        yield Msg("close_run")
+
+    return plan(), d
+
+
+CORPUS = dict(declared=declared, double_stage=double_stage, failpause=failpause, defer_failpause=defer_failpause, count2=count2, scan2=scan2, scan3=scan3, rel_scan2=rel_scan2, list_scan2=list_scan2, grid2x2=grid2x2, adaptive=adaptive, tune=tune,
               fly1=fly1, bare=bare, cleanup=cleanup, staged_monitor=staged_monitor, nested_runs=nested_runs, flymon=flymon)
